@@ -529,6 +529,25 @@ func generate(seed int64, thorough bool) []string {
 			}
 		}
 	}
+	// the consumers with a fully scripted PD: commit modes x causal x registration sequences x PD step, tikv/kv.go retries
+	for rep := 0; rep < 10*mul && !conc; rep++ {
+		for mode := 0; mode < 3; mode++ {
+			for causal := 0; causal < 2; causal++ {
+				ahead := []int64{-50, 0, 3, 25, 60}[r.Intn(5)]
+				a := i(ahead)
+				regs := [][]string{{a}, {a, "z"}, {i(ahead - 20), a, i(ahead - 40)}, {"z", a, "z", i(ahead - 10)}, {"z"}, {a, a, "z"}}[r.Intn(6)]
+				step := []string{"0", "1", "5", "14"}[r.Intn(4)]
+				to := []string{"1388", "1e", "a", "0"}[r.Intn(4)] // 5000, 30, 10, 0 ms
+				o = append(o, ln("tc", strconv.Itoa(mode), strconv.Itoa(causal), strings.Join(regs, ","), to, strconv.Itoa(1+r.Intn(3)), step))
+			}
+		}
+		for _, op := range []string{"cur", "retry", "min"} {
+			o = append(o, ln("kv", op, strconv.Itoa(r.Intn(4))))
+		}
+	}
+	if !conc {
+		o = append(o, ln("kv", "cur", "40"), ln("kv", "retry", "40")) // PD down for the whole budget
+	}
 	o = append(o, ln("mo", "200"))
 	nb := 2
 	if thorough {
